@@ -74,7 +74,12 @@ Eval(s, e) ==
    ELSE IF AllFin(e.ops) THEN (IF Close(e.f, Merit(e.ops, s.w, s.t), 44) THEN {} ELSE {"callback_merit"})
    ELSE (IF IsFin(e.f) /\ DLe(s.m0, e.f) THEN {} ELSE {"callback_penalty"}))   \* undefined operand: a finite penalty, never better than the start
 Return(s, e) ==
-  (IF \A j \in 1..Len(s.evs) : s.evs[j].p = e.x => s.evs[j].f = e.fun THEN {} ELSE {"ret_fun_is_callback"}) \cup
+  \* scipy's contract: the returned objective is the value the callback gave at the returned
+  \* point (some evaluation of it: the objective depends on the path in its last bits).
+  \* Judged only when every evaluation of the run was logged in this process.
+  (IF (e.complete /\ \E j \in 1..Len(s.evs) : s.evs[j].p = e.x)
+        => (\E j \in 1..Len(s.evs) : s.evs[j].p = e.x /\ s.evs[j].f = e.fun)
+   THEN {} ELSE {"ret_fun_is_callback"}) \cup
   (IF Len(e.x) = Len(s.x0) /\ AllFin(e.x) /\ IsFin(e.fun) THEN {} ELSE {"ret_shape"})
 
 PickupsHold(e) ==
